@@ -264,8 +264,9 @@ def run_check(pid, cases, tier, seed, opts, meta):
         # translator validation, exact side
         tv_cases = meta.get('tv_cases')
         if tv_cases is None:
-            step = max(1, len(cases) // max(1, meta.get('tv_max', 40)))
-            tv_cases = cases[::step][:meta.get('tv_max', 40)]
+            pool_ = [c for c in cases if not c.get('no_tv')]          # (cases whose recorded outputs carry the sign freedom of a factorization are not comparable)
+            step = max(1, len(pool_) // max(1, meta.get('tv_max', 40)))
+            tv_cases = pool_[::step][:meta.get('tv_max', 40)]
         exact = pool.map(exact_trace, [(c, seed + 1, opts) for c in tv_cases], chunksize=1)
 
     errors = [r for r in results if r['error']]
